@@ -142,6 +142,11 @@ func c12RawList(r *rand.Rand, ids []string, o gen.PopOpts) *sbom.NodeList {
 	for _, id := range ids {
 		nl.Nodes = append(nl.Nodes, gen.Node(r, id, o))
 	}
+	if r.Intn(3) == 0 {
+		// a second node object carrying an identifier the list already has, with other content (a decoder does not
+		// object to that; a copy must still hold what its source holds, position by position)
+		nl.Nodes = append(nl.Nodes, gen.Node(r, ids[r.Intn(len(ids))], o))
+	}
 	n := 1 + r.Intn(5)
 	for i := 0; i < n; i++ {
 		var to []string
@@ -247,7 +252,7 @@ func init() {
 		Rule: "case kinds by k mod 4: (0) for each of Node, Edge, Person, ExternalReference, NodeList: populate every field (reflection, nesting depth 3), copy, require library Equal and field-by-field equality, " +
 			"then for EVERY mutation site enumerated by reflection (scalar set, list element set/append/clear, map set/new/delete, nested message fields; both directions) mutate one side and compare the other with its pre-mutation snapshot; " +
 			"(1) the same for Union results against both operands, (2) for Intersect results; (3) histories of <=14 calls over a pool of operands (Union, Intersect, five Copy methods produce results; Add, RemoveNodes, Relate*, AddNode/AddEdge mutate operands or results) " +
-			"where after every call every earlier result must equal its snapshot. Values also take the raw shapes decoders hand over: repeated, empty and self targets, several edge records per source and type, repeated and dangling roots, present-but-empty collections (allocated maps without entries, zero-length slices with spare capacity). distinct = hash of (kind, populated value); non-trivial = value with nested messages / history with >=2 results.",
+			"where after every call every earlier result must equal its snapshot. Values also take the raw shapes decoders hand over: repeated, empty and self targets, several edge records per source and type, repeated and dangling roots, two different nodes under one identifier, present-but-empty collections (allocated maps without entries, zero-length slices with spare capacity). distinct = hash of (kind, populated value); non-trivial = value with nested messages / history with >=2 results.",
 		Assumptions: []string{"values hold no nil elements inside repeated message fields", "nil and empty collections are identified (the API cannot tell them apart)"},
 		NCases: func(tier string) int {
 			if tier == "thorough" {
